@@ -468,6 +468,11 @@ func (runInfo *runInfoStruct) invokeSliceExpr(expr *ast.SliceExpr) {
 		item = item.Elem()
 	}
 
+	if item.Kind() == reflect.Array && !item.CanAddr() {
+		// an array value that is not addressable (one defined by the host) cannot be sliced in place
+		item = arrayAsSlice(item)
+	}
+
 	switch item.Kind() {
 	case reflect.String, reflect.Slice, reflect.Array:
 		var beginIndex int
